@@ -73,16 +73,29 @@ pub fn schema_ty<T: FullS>(g: &mut Gen, b: &Budget, out: &mut Sink) {
     // C17: containers round-trip to an equal container
     let back = catch_unwind(AssertUnwindSafe(|| borsh::from_slice::<BorshSchemaContainer>(&bs)));
     out.oracle("C17", matches!(back, Ok(Ok(ref c2)) if *c2 == c), &case, "container does not round-trip");
-    // C09 soundness on real encodings
-    if let Some(n) = m.strip_prefix("(ok ").and_then(|s| s.strip_suffix(')')).and_then(|s| s.parse::<usize>().ok()) {
-        for _ in 0..b.values {
-            let val = T::gen(g, 0);
-            if let (_, Some(enc)) = enc_obs(&val) {
+    // C09 soundness on real encodings; C08: the schema alone parses every real encoding exactly
+    let bound = m.strip_prefix("(ok ").and_then(|s| s.strip_suffix(')')).and_then(|s| s.parse::<usize>().ok());
+    for _ in 0..b.values {
+        let val = T::gen(g, 0);
+        if let (_, Some(enc)) = enc_obs(&val) {
+            if let Some(n) = bound {
                 out.oracle(
                     "C09",
                     enc.len() <= n,
                     &case,
                     &format!("value {} encodes to {} bytes > reported maximum {}", val_of(&val), enc.len(), n),
+                );
+            }
+            if v == "ok" {
+                let mut pos = 0usize;
+                let r = walk(&c, c.declaration(), &enc, &mut pos, 0);
+                let okay = matches!(r, Ok(())) && pos == enc.len();
+                out.oracle(
+                    "C08",
+                    okay,
+                    &format!("enc {} {}", ty, val_of(&val)),
+                    &format!("the schema does not describe the encoding {}: {:?}, {} of {} bytes consumed",
+                             hex(&enc), r, pos, enc.len()),
                 );
             }
         }
@@ -98,6 +111,78 @@ pub fn schema_ty<T: FullS>(g: &mut Gen, b: &Budget, out: &mut Sink) {
         // schema says: some sequence has zero-sized elements.  Nothing to assert for arbitrary
         // positions; top-level agreement is asserted in the zst workload.
         let _ = empty_enc;
+    }
+}
+
+/// a reader that knows nothing but the schema: walks `bs` as the definitions prescribe
+pub fn walk(c: &BorshSchemaContainer, decl: &str, bs: &[u8], pos: &mut usize, depth: u32) -> Result<(), String> {
+    if depth > 64 {
+        return Err("too deep".into());
+    }
+    let def = c.get_definition(decl).ok_or_else(|| format!("no definition of {}", decl))?;
+    let take = |pos: &mut usize, n: usize| -> Result<usize, String> {
+        if bs.len() - *pos < n {
+            return Err(format!("out of bytes at {} (need {})", *pos, n));
+        }
+        let at = *pos;
+        *pos += n;
+        Ok(at)
+    };
+    let read_le = |pos: &mut usize, n: usize| -> Result<u64, String> {
+        if n > 8 {
+            return Err(format!("width {}", n));
+        }
+        let at = take(pos, n)?;
+        let mut x: u64 = 0;
+        for (i, b) in bs[at..at + n].iter().enumerate() {
+            x |= (*b as u64) << (8 * i);
+        }
+        Ok(x)
+    };
+    match def {
+        Definition::Primitive(n) => take(pos, *n as usize).map(|_| ()),
+        Definition::Sequence { length_width, length_range, elements } => {
+            let len = if *length_width == 0 { *length_range.end() } else { read_le(pos, *length_width as usize)? };
+            if !length_range.contains(&len) {
+                return Err(format!("length {} outside {:?}", len, length_range));
+            }
+            for i in 0..len {
+                let before = *pos;
+                walk(c, elements, bs, pos, depth + 1)?;
+                if *pos == before && i > 4 {
+                    break; // zero-width elements: nothing more to learn
+                }
+            }
+            Ok(())
+        }
+        Definition::Tuple { elements } => {
+            for e in elements {
+                walk(c, e, bs, pos, depth + 1)?;
+            }
+            Ok(())
+        }
+        Definition::Enum { tag_width, variants } => {
+            let tag = read_le(pos, *tag_width as usize)?;
+            let Some((_, _, d)) = variants.iter().find(|(disc, _, _)| *disc as u64 == tag && *disc >= 0) else {
+                return Err(format!("tag {} is no discriminant", tag));
+            };
+            walk(c, d, bs, pos, depth + 1)
+        }
+        Definition::Struct { fields } => match fields {
+            Fields::NamedFields(fs) => {
+                for (_, d) in fs {
+                    walk(c, d, bs, pos, depth + 1)?;
+                }
+                Ok(())
+            }
+            Fields::UnnamedFields(fs) => {
+                for d in fs {
+                    walk(c, d, bs, pos, depth + 1)?;
+                }
+                Ok(())
+            }
+            Fields::Empty => Ok(()),
+        },
     }
 }
 
@@ -321,6 +406,45 @@ pub fn gen_cyclic_container(g: &mut Gen) -> BorshSchemaContainer {
     BorshSchemaContainer::new(root, defs)
 }
 
+/// acyclic chains whose sizes multiply: nested sequences (every length width, maximum lengths up to
+/// u64::MAX), tuples that repeat a name, enums, ending in a leaf of 0, 1, 2 or 8 bytes — the shapes
+/// on which the arithmetic of the bound (saturation, overflow, where the width is added) decides
+pub fn gen_chain_container(g: &mut Gen) -> BorshSchemaContainer {
+    let names = ["A", "B", "C", "D", "E"];
+    let k = 2 + g.below(4) as usize;
+    let mut defs: BTreeMap<Declaration, Definition> = BTreeMap::new();
+    let big = [0u64, 1, 2, 3, 255, 256, 1 << 16, (1 << 32) - 1, 1 << 32, 1 << 40, (1 << 63) - 1, 1 << 63,
+               u64::MAX - 1, u64::MAX];
+    for i in 0..k - 1 {
+        let next = names[i + 1].to_string();
+        let d = match g.below(10) {
+            0..=5 => {
+                let hi = *g.pick(&big);
+                let lo = if g.chance(1, 2) { hi } else { g.below(3).min(hi) };
+                Definition::Sequence { length_width: *g.pick(&[0u8, 0, 0, 0, 1, 2, 4, 8]), length_range: lo..=hi, elements: next }
+            }
+            6 => Definition::Tuple { elements: (0..1 + g.below(3)).map(|_| next.clone()).collect() },
+            7 => Definition::Struct { fields: Fields::UnnamedFields((0..1 + g.below(3)).map(|_| next.clone()).collect()) },
+            8 => Definition::Enum {
+                tag_width: *g.pick(&[0u8, 1, 1, 2, 8]),
+                variants: vec![(0, "X".into(), next.clone()), (1, "Y".into(), "()".into())],
+            },
+            _ => Definition::Enum { tag_width: 1, variants: vec![(0, "X".into(), next)] },
+        };
+        defs.insert(names[i].to_string(), d);
+    }
+    let leaf = match g.below(6) {
+        0 => Definition::Primitive(0),
+        1 | 2 => Definition::Primitive(1),
+        3 => Definition::Primitive(*g.pick(&[2u8, 8, 255])),
+        4 => Definition::Enum { tag_width: 1, variants: vec![(0, "X".into(), "()".into()), (1, "Y".into(), "()".into())] },
+        _ => Definition::Tuple { elements: vec![] },
+    };
+    defs.insert(names[k - 1].to_string(), leaf);
+    defs.insert("()".into(), Definition::Primitive(0));
+    BorshSchemaContainer::new("A".to_string(), defs)
+}
+
 pub fn one_container(c: &BorshSchemaContainer, out: &mut Sink) {
     let (_, bs) = enc_obs(c);
     let Some(bs) = bs else { return };
@@ -403,7 +527,11 @@ pub fn container_corpus(out: &mut Sink) {
 pub fn containers(g: &mut Gen, n: usize, out: &mut Sink) {
     container_corpus(out);
     for i in 0..n {
-        let c = if i % 3 == 2 { gen_cyclic_container(g) } else { gen_container(g) };
+        let c = match i % 4 {
+            2 => gen_cyclic_container(g),
+            3 => gen_chain_container(g),
+            _ => gen_container(g),
+        };
         one_container(&c, out);
     }
 }
